@@ -29,11 +29,96 @@ def optIntToSexp : Option Int → Sexp
   | none => .atom "ERR"
   | some v => Sexp.ofInt v
 
-def invToSexp : InvResult → Sexp
+def invToSexp : InvResult Int → Sexp
   | .zeroDivision => .atom "ZeroDivisionError"
   | .notImplemented => .atom "NotImplementedError"
   | .valueError => .atom "ValueError"
   | .ok n d => .list [mvToSexp n, Sexp.ofInt d]
+
+/-! ### generic-coefficient operations (`ga-mvq`: `Fraction` coefficients = `Rat`;
+    `ga-mvz6`: the ring `Z/6` with zero divisors = `Fin 6`) -/
+
+section C18Generic
+variable {R : Type} [Add R] [Mul R] [Neg R] [OfNat R 0] [OfNat R 1] [DecidableEq R] [Div R]
+
+def c18MvOf? (rd : Sexp → Option R) (s : Sexp) : Option (MVOf R) :=
+  match s with
+  | .list xs => xs.mapM fun p => match p with
+    | .list [k, v] => do pure ((← k.nat?), (← rd v))
+    | _ => none
+  | _ => none
+
+def c18MvToSexp (sh : R → Sexp) (m : MVOf R) : Sexp :=
+  .list (m.map fun (k, v) => .list [Sexp.ofNat k, sh v])
+
+def c18OptToSexp (sh : R → Sexp) : Option R → Sexp
+  | none => .atom "ValueError"
+  | some v => sh v
+
+def c18InvErr : InvResult R → Sexp
+  | .zeroDivision => .atom "ZeroDivisionError"
+  | .notImplemented => .atom "NotImplementedError"
+  | .valueError => .atom "ValueError"
+  | .ok _ _ => .atom "ok"
+
+def c18ExceptToSexp (sh : R → Sexp) : Except (InvResult R) (MVOf R) → Sexp
+  | .ok m => c18MvToSexp sh m
+  | .error e => c18InvErr e
+
+def c18XProjToSexp (sh : R → Sexp) : XProj R → Sexp
+  | .scalar x => .list [.atom "scalar", sh x]
+  | .vector v => .list (.atom "vector" :: v.map sh)
+  | .mv m => .list [.atom "mv", c18MvToSexp sh m]
+  | .valueError => .atom "ValueError"
+
+/-- every operation of the model on `(a, b)` in the space `(g, dims)`, exponent `n`, grade `r` -/
+def c18AllOps (sh : R → Sexp) (withInv : Bool) (gm : Nat → R) (dims : Nat) (a b : MVOf R)
+    (n : Int) (r : Nat) : Sexp :=
+  let mv := c18MvToSexp sh
+  .list [
+    mv (mvMul gm a b), mv (mvOuter gm a b), mv (mvInner gm a b),
+    mv (mvLeftContraction gm a b), mv (mvRightContraction gm a b),
+    c18OptToSexp sh (scalarProduct gm a b),
+    mv (rev a), mv (invol a),
+    c18OptToSexp sh (normSquared gm a),
+    (if withInv then c18ExceptToSexp sh (mvInvDiv gm dims a) else c18InvErr (inv gm dims a)),
+    (if withInv then c18ExceptToSexp sh (mvTrueDiv gm dims a b) else .atom "skip"),
+    mv (dual gm dims a), mv (dual gm dims (dual gm dims a)),
+    mv (pseudoscalar dims : MVOf R),
+    .list ((List.range (dims + 2)).map fun r => mv (project a r)),
+    c18XProjToSexp sh (xproject dims a 0), c18XProjToSexp sh (xproject dims a 1),
+    c18XProjToSexp sh (xproject dims a r),
+    .list ((genBlades a).map mv), .list ((genBladesGrade a r).map mv),
+    c18OptToSexp sh (asScalar a),
+    (match mvPow gm a n with | none => .atom "RuntimeError" | some p => mv p),
+    mv (odd a), mv (even a),
+    (match getPureGrade a with | none => .atom "none" | some k => Sexp.ofNat k),
+    Sexp.ofBool (mvEq a b), Sexp.ofBool (mvEq a a), Sexp.ofBool (mvBool a),
+    Sexp.ofBool (mvEqScalar a 0), Sexp.ofBool (mvEqScalar a 1),
+    mv (mvNeg a), mv (mvAdd a b), mv (mvSub a b)]
+
+end C18Generic
+
+def c18RatOf? : Sexp → Option Rat
+  | .atom s =>
+    match s.splitOn "/" with
+    | [n] => n.toInt?.map fun (i : Int) => (i : Rat)
+    | [n, d] => do
+      let n ← n.toInt?; let d ← d.toNat?
+      if d = 0 then none else pure (mkRat n d)
+    | _ => none
+  | _ => none
+
+def c18RatToSexp (q : Rat) : Sexp :=
+  .atom (if q.den = 1 then toString q.num else toString q.num ++ "/" ++ toString q.den)
+
+def c18Fin6Of? (s : Sexp) : Option (Fin 6) := s.int?.map fun i => Fin.ofNat 6 (i % 6).toNat
+
+def c18Fin6ToSexp (x : Fin 6) : Sexp := Sexp.ofNat x.val
+
+def c18ListOf? {R : Type} (rd : Sexp → Option R) : Sexp → Option (List R)
+  | .list xs => xs.mapM rd
+  | _ => none
 
 def handleGA : Sexp → Option Sexp
   | .list [.atom "ga-bitcount", n] => n.nat?.map fun n => Sexp.ofNat (bitCount n)
@@ -57,6 +142,16 @@ def handleGA : Sexp → Option Sexp
         Sexp.ofBool (mvEqScalar a 0), mvToSexp (dual gm dims a),
         (match getPureGrade a with | none => .atom "none" | some k => Sexp.ofNat k),
         mvToSexp (mvAdd a b), mvToSexp (mvSub a b)])
+  | .list [.atom "ga-mvq", g, dims, a, b, n, r] => do
+      let g ← c18ListOf? c18RatOf? g; let dims ← dims.nat?
+      let a ← c18MvOf? c18RatOf? a; let b ← c18MvOf? c18RatOf? b
+      let n ← n.int?; let r ← r.nat?
+      pure (c18AllOps c18RatToSexp true (fun i => g.getD i 1) dims a b n r)
+  | .list [.atom "ga-mvz6", g, dims, a, b, n, r] => do
+      let g ← c18ListOf? c18Fin6Of? g; let dims ← dims.nat?
+      let a ← c18MvOf? c18Fin6Of? a; let b ← c18MvOf? c18Fin6Of? b
+      let n ← n.int?; let r ← r.nat?
+      pure (c18AllOps c18Fin6ToSexp false (fun i => g.getD i 1) dims a b n r)
   | .list [.atom "ga-permsign", p] => do
       let p ← natList? p
       pure (match permutationSign? p with | none => .atom "IndexError" | some s => Sexp.ofInt s)
